@@ -93,6 +93,11 @@ func CDecompressSafe(src []byte) (dst cmem.CArray, err error) {
 		return
 	}
 	sizeD := SizeDecompressed(src)
+	if src[0]&1 == 0 && sizeD != sizeC-headerLen(src) {
+		// a stored (not compressed) stream is copied verbatim by the C code
+		err = fmt.Errorf("bad sizeDecompressed for stored stream, expect %d, got %d", sizeC-headerLen(src), sizeD)
+		return
+	}
 	dst, err = CDecompress(src, sizeD)
 	if err != nil {
 		return
